@@ -62,7 +62,10 @@ func macCompare(ins ssa.Instruction, macBuf *types.Var) *compareInfo {
 	}
 	id := calleeID(ins)
 	if id != "bytes.Equal" && id != "crypto/subtle.ConstantTimeCompare" && id != "crypto/hmac.Equal" {
-		return nil
+		// a hand-written equality helper counts when its body is a full-width comparison
+		if f := staticCallee(&call.Call); f == nil || !InModule(f) || !isFullWidthEqual(f) {
+			return nil
+		}
 	}
 	args := call.Call.Args
 	if len(args) != 2 {
@@ -83,6 +86,122 @@ func macCompare(ins ssa.Instruction, macBuf *types.Var) *compareInfo {
 		ci.key = atomKey{token.ILLEGAL, call, nil}
 	}
 	return ci
+}
+
+// isFullWidthEqual recognises func(a, b []byte) bool whose result is "no byte differs":
+// an accumulator that starts at 0 and is OR-ed with a[i]^b[i] for every i below a
+// length, compared with 0 at the end (a length mismatch may return false early).
+// An accumulator updated with ^= or +, or a loop over part of the bytes, is not recognised.
+func isFullWidthEqual(fn *ssa.Function) bool {
+	if len(fn.Params) != 2 || !isByteSlice(fn.Params[0].Type()) || !isByteSlice(fn.Params[1].Type()) {
+		return false
+	}
+	res := fn.Signature.Results()
+	if res.Len() != 1 || !types.Identical(res.At(0).Type().Underlying(), types.Typ[types.Bool]) {
+		return false
+	}
+	a, b := ssa.Value(fn.Params[0]), ssa.Value(fn.Params[1])
+	isElem := func(v ssa.Value, of ssa.Value) (ssa.Value, bool) {
+		u, ok := strip(v).(*ssa.UnOp)
+		if !ok || u.Op != token.MUL {
+			return nil, false
+		}
+		ia, ok := u.X.(*ssa.IndexAddr)
+		if !ok || strip(ia.X) != of {
+			return nil, false
+		}
+		return ia.Index, true
+	}
+	var acc *ssa.Phi
+	eachInstr(fn, func(ins ssa.Instruction) {
+		phi, ok := ins.(*ssa.Phi)
+		if !ok || acc != nil {
+			return
+		}
+		zero, upd := false, false
+		for _, e := range phi.Edges {
+			if n, isC := constInt(e); isC && n == 0 {
+				zero = true
+				continue
+			}
+			or, ok := strip(e).(*ssa.BinOp)
+			if !ok || or.Op != token.OR {
+				return
+			}
+			var x ssa.Value
+			if strip(or.X) == ssa.Value(phi) {
+				x = or.Y
+			} else if strip(or.Y) == ssa.Value(phi) {
+				x = or.X
+			} else {
+				return
+			}
+			xr, ok := strip(x).(*ssa.BinOp)
+			if !ok || xr.Op != token.XOR {
+				return
+			}
+			i1, ok1 := isElem(xr.X, a)
+			i2, ok2 := isElem(xr.Y, b)
+			if !ok1 || !ok2 {
+				i1, ok1 = isElem(xr.X, b)
+				i2, ok2 = isElem(xr.Y, a)
+			}
+			if !ok1 || !ok2 || i1 != i2 {
+				return
+			}
+			upd = true
+		}
+		if zero && upd {
+			acc = phi
+		}
+	})
+	if acc == nil {
+		return false
+	}
+	// the loop runs to a length of one of the operands
+	bounded := false
+	eachInstr(fn, func(ins ssa.Instruction) {
+		if bo, ok := ins.(*ssa.BinOp); ok && bo.Op == token.LSS {
+			if call, ok := strip(bo.Y).(*ssa.Call); ok {
+				if bi, isB := call.Call.Value.(*ssa.Builtin); isB && bi.Name() == "len" && (strip(call.Call.Args[0]) == a || strip(call.Call.Args[0]) == b) {
+					bounded = true
+				}
+			}
+		}
+	})
+	if !bounded {
+		return false
+	}
+	// every return: false, or acc == 0
+	okRet := true
+	var retOK func(v ssa.Value, d int) bool
+	retOK = func(v ssa.Value, d int) bool {
+		if bv, isC := constBool(v); isC {
+			return !bv
+		}
+		if bo, ok := strip(v).(*ssa.BinOp); ok && bo.Op == token.EQL {
+			if n, isC := constInt(bo.Y); isC && n == 0 && strip(bo.X) == ssa.Value(acc) {
+				return true
+			}
+		}
+		if phi, ok := v.(*ssa.Phi); ok && d < 3 {
+			for _, e := range phi.Edges {
+				if !retOK(e, d+1) {
+					return false
+				}
+			}
+			return true
+		}
+		return false
+	}
+	for _, blk := range fn.Blocks {
+		if r, ok := blk.Instrs[len(blk.Instrs)-1].(*ssa.Return); ok {
+			if len(r.Results) != 1 || !retOK(r.Results[0], 0) {
+				okRet = false
+			}
+		}
+	}
+	return okRet
 }
 
 // compareOutcome finds on path p (from block ordinal i on) whether the compare was found equal.
